@@ -227,7 +227,7 @@ func init() {
 			{Rel: ".", Dir: "fiber", Entry: "VH_C12_roundtrip", Cases: tierCases([]int{0, 1, 2}, []int{0, 1, 2, 3}), Reach: []string{"roundtrip"}, MaxPaths: 100000},
 			{Rel: ".", Dir: "fiber", Entry: "VH_C12_hostile", Cases: tierCases([]int{1, 2, 3, 4}, []int{1, 2, 3, 4, 5, 6, 7}), Reach: []string{"malformed", "wellformed"}, MaxPaths: 200000},
 			{Rel: ".", Dir: "fiber", Entry: "VH_C12_exchange", Cases: tierCases([]int{1}, []int{1}), Reach: []string{"exchange"}, MaxPaths: 100000},
-			{Rel: ".", Dir: "fiber", Entry: "VH_C12_mixed", Cases: tierCases([]int{0, 1}, []int{0, 1}), Reach: []string{"mixed"}, MaxPaths: 100000, ExtraPkgs: []string{"github.com/gofiber/fiber/v3/binder"}},
+			{Rel: ".", Dir: "fiber", Entry: "VH_C12_mixed", Cases: tierCases([]int{0, 1, 2, 4, 5, 6}, []int{0, 1, 2, 3, 4, 5, 6, 7}), Reach: []string{"mixed"}, MaxPaths: 100000, ExtraPkgs: []string{"github.com/gofiber/fiber/v3/binder"}},
 		},
 		Bounds: map[string]string{
 			"quick":    "round trip of 0..2 messages with symbolic key/value (length 0..2, all bytes), level and old-input flag into a dirty reused target; hostile cookie: every byte string of length 1..4 (minus ';', space, '\"') with an allocation budget of 64*len+512 bytes; issue/present/expire/absent exchange with 1 message at the fasthttp API level; a redirect carrying one message (key 1 letter, value 0..2 letters) and the old input of one query field (name 1 letter, value 0..2 letters) in both call orders, the message key possibly equal to the field name",
@@ -242,7 +242,7 @@ func init() {
 	props["C05"] = PropSpec{
 		ID: "C05",
 		Runs: []HarnessRun{
-			{Rel: ".", Dir: "fiber", Entry: "VH_C05_isolation", Cases: tierCases([]int{0, 2, 4, 6, 8, 10, 12, 14, 16, 1, 13}, rangeInts(0, 18)), Reach: []string{"compared"}, MaxPaths: 100000},
+			{Rel: ".", Dir: "fiber", Entry: "VH_C05_isolation", Cases: tierCases([]int{0, 2, 4, 6, 8, 10, 12, 14, 16, 18, 1, 13}, rangeInts(0, 20)), Reach: []string{"compared"}, MaxPaths: 100000},
 		},
 		Bounds: map[string]string{
 			"quick":    "1 preceding request (2 for two cases) on a pooled context, performing one of 9 operations (a legitimate flash cookie followed by a probe that itself carries 1..3 crafted cookie bytes, Bind auto-handling, redirect state, ViewBind, response header+status, BaseURL, handler error, flash cookie of 1..3 arbitrary bytes, handler panic) with symbolic route parameters, followed by a probe (with/without a symbolic parameter) whose 15 observations are compared with the same probe on a fresh app",
@@ -254,7 +254,7 @@ func init() {
 			"concurrent use of one context and state the application shares on purpose are outside",
 		},
 	}
-	c06all := rangeInts(0, 22)
+	c06all := rangeInts(0, 24)
 	for _, k := range []int{0, 3, 4, 5, 9, 11} {
 		c06all = append(c06all, 100+k)
 	}
@@ -264,7 +264,7 @@ func init() {
 			{Rel: ".", Dir: "fiber", Entry: "VH_C06_immutable", Cases: tierCases(c06all, c06all), Reach: []string{"checked"}, MaxPaths: 100000},
 		},
 		Bounds: map[string]string{
-			"quick":    "22 accessors (Params, generic Params, Path, OriginalURL, Protocol, Query, Queries, Get, GetReqHeaders, Cookies, Host, Hostname, Subdomains, Body, Body with an unsupported Content-Encoding, BodyRaw, BaseURL, Method, Route().Path, IP from the proxy header with and without validation, IPs) with Immutable on: request 1 has symbolic parameter/query/header/cookie/body tokens, then a second fully symbolic request is served on the same fasthttp.RequestCtx and pooled context and the kept value must still equal what request 1 contained; 6 accessors with Immutable off (correct inside the handler)",
+			"quick":    "24 accessors (Params, generic Params, Path, OriginalURL, Protocol, Query, Queries, Get, GetReqHeaders, Cookies, Host, Hostname, Host / Hostname from X-Forwarded-Host (list, port), Subdomains, Body, Body with an unsupported Content-Encoding, BodyRaw, BaseURL, Method, Route().Path, IP from the proxy header with and without validation, IPs) with Immutable on: request 1 has symbolic parameter/query/header/cookie/body tokens, then a second fully symbolic request is served on the same fasthttp.RequestCtx and pooled context and the kept value must still equal what request 1 contained; 6 accessors with Immutable off (correct inside the handler)",
 			"thorough": "same as quick",
 		},
 		Assumptions: []string{
@@ -311,7 +311,7 @@ func init() {
 	props["C17"] = PropSpec{
 		ID: "C17",
 		Runs: []HarnessRun{
-			{Rel: "middleware/idempotency", Dir: "idempotency", Entry: "VH_C17_concurrent", Cases: tierCases([]int{0, 16, 32, 2, 8, 12, 13}, []int{0, 16, 32, 1, 2, 3, 8, 24, 9, 10, 11, 12, 13}), Reach: []string{"joined"}, MaxPaths: 300000, ExtraPkgs: idem, Repeat: 3},
+			{Rel: "middleware/idempotency", Dir: "idempotency", Entry: "VH_C17_concurrent", Cases: tierCases([]int{0, 16, 32, 2, 3, 8, 12, 13}, []int{0, 16, 32, 1, 2, 3, 8, 24, 9, 10, 11, 12, 13}), Reach: []string{"joined"}, MaxPaths: 300000, ExtraPkgs: idem, Repeat: 3},
 		},
 		Bounds: map[string]string{
 			"quick":    "2 concurrent POST requests (3 for the lock-fault case) with the same idempotency key (last one optionally another key / no key), real MemoryLock or a distributed-lock stub, storage stub with/without injected lookup (Get) faults, lock faults; every interleaving at storage / locker / handler boundaries",
@@ -388,7 +388,7 @@ func init() {
 		ID: "C18",
 		Runs: []HarnessRun{
 			{Rel: "client", Dir: "client", Entry: "VH_C18_jar", Cases: tierCases([]int{1, 2, 12, 22}, []int{1, 2, 3, 12, 13, 22, 23, 32}), Reach: []string{"checked"}, MaxPaths: 400000},
-			{Rel: "client", Dir: "client", Entry: "VH_C18_assembly", Cases: seqCases(2), Reach: []string{"assembled"}, MaxPaths: 100000, Repeat: 60},
+			{Rel: "client", Dir: "client", Entry: "VH_C18_assembly", Cases: seqCases(3), Reach: []string{"assembled"}, MaxPaths: 100000, Repeat: 60},
 			{Rel: "client", Dir: "client", Entry: "VH_C18_handoff", Cases: seqCases(2), Reach: []string{"B-done"}, MaxPaths: 300000, Repeat: 40},
 		},
 		Bounds: map[string]string{
